@@ -239,6 +239,7 @@ import (
 	ma "github.com/multiformats/go-multiaddr"
 
 	"verifsim/harness/common"
+	"verifsim/simhook"
 	"verifsim/simhost"
 	"verifsim/simnet"
 	"verifsim/simrand"
@@ -562,7 +563,7 @@ func (w *world) setupNodes() bool {
 		w.o.Trouble = "node A: " + err.Error()
 		return false
 	}
-	w.nodeB, err = simhost.New(w.n, simhost.Opts{Key: simhost.DetKey(2), IP: "10.0.0.2", Port: 4001, Security: secu, WithHost: host, QUIC: quic, NoTCPListen: quic, SharedTCP: p.sharedTCP && !quic})
+	w.nodeB, err = simhost.New(w.n, simhost.Opts{Key: simhost.DetKey(2), IP: "10.0.0.2", Port: 4001, Security: secu, WithHost: host, QUIC: quic, NoTCPListen: quic, SharedTCP: p.sharedTCP && !quic && simhook.TCPReuseSeam})
 	if err != nil {
 		w.o.Trouble = "node B: " + err.Error()
 		return false
@@ -585,7 +586,7 @@ func (w *world) setupNodes() bool {
 	} else {
 		a.PS.AddAddrs(b.ID, []ma.Multiaddr{b.Addr}, peerstore.PermanentAddrTTL)
 	}
-	if p.sharedTCP && !quic {
+	if p.sharedTCP && !quic && simhook.TCPReuseSeam {
 		w.probe("shared-tcp-listener")
 		if !w.sickDials() {
 			return false
